@@ -943,11 +943,18 @@ class TermBuilder:
             return None
         for p, a in zip(pos, args):
             bind[p] = a
+        if callee.node.args.vararg:
+            bind[callee.node.args.vararg.arg] = ("tuple", tuple(args[len(pos):]))
+        extra = []
         for k, v in kws:
             if k in pos or k in callee.kwonly_params:
                 bind[k] = v
             elif not callee.node.args.kwarg:
                 return None
+            else:
+                extra.append((("const", k), v))
+        if callee.node.args.kwarg:
+            bind[callee.node.args.kwarg.arg] = ("dict", tuple(extra))
         sub = TermBuilder(self.prog, callee, self.self_cls if recv == SELF else callee.cls, True, self.depth,
                           _stack=self._call_stack + (callee.qualname,))
         sub.no_inline = self.no_inline
@@ -1049,6 +1056,44 @@ def builder(prog, fn, self_cls=None, inline=True, guarded=False, shallow=False, 
         _builders[key].shallow = shallow
         _builders[key].no_inline = frozenset(no_inline)
     return _builders[key]
+
+
+def dict_entries(t):
+    """[(key, value, literals)] of a dict-valued term: displays, ** merges, dict(k=v) calls and comprehensions over the
+    items of such a dict (their conditions become the entry's literals, e.g. 'value is not None'); None if not enumerable.
+    Later entries with the same key override earlier ones, as in Python."""
+    from .guards import literals as _lits
+    if t[0] == "dict":
+        out = []
+        for k, v in t[1]:
+            if k == ("const", "**"):
+                sub = dict_entries(v)
+                if sub is None:
+                    return None
+                out += sub
+            else:
+                out.append((k, v, ()))
+        return out
+    if t[0] == "call" and t[1] == G("dict") and not t[2]:
+        return [(("const", k), v, ()) for k, v in t[3]]
+    if t[0] == "comp" and t[1] == "dict" and isinstance(t[5], tuple) and (not t[5] or t[5][0] != "nested"):
+        it = t[4]
+        if it[0] == "call" and it[1][0] == "attr" and it[1][2] == "items" and not it[2] and not it[3]:
+            D = it[1][1]
+            base = dict_entries(D)
+            if base is None:
+                return None
+            keyt = ("key", D, ("idx", t[3], "items"))
+            valt = ("sub", D, keyt)
+            out = []
+            for k, v, l in base:
+                m = {valt: v, keyt: k}
+                conds = []
+                for c in t[5]:
+                    conds += _lits(subst(c, m), True)
+                out.append((subst(t[2][1][0], m), subst(t[2][1][1], m), tuple(l) + tuple(conds)))
+            return out
+    return None
 
 
 def galts(t):
